@@ -178,16 +178,14 @@ pub fn big_histories(tier: &str) -> Vec<Vec<Op>> {
         let b = 32768u64;
         let n = (b + 100) as u32;
         let cl: Vec<(u64, u64)> = vec![(b - 68, b), (b - 168, b - 58), (b - 10, b + 10), (b, b + 5), (b - 5, b), (b - 300, b - 200)];
-        let mut k = 0;
+        let mut k = 0u32;
+        let _ = &mut k;
         for (i, a) in cl.iter().enumerate() {
             for (j, c) in cl.iter().enumerate() {
                 if i == j {
                     continue;
                 }
                 k += 1;
-                if quick && k % 5 != 1 {
-                    continue;
-                }
                 out.push(vec![Op::BatchN(n), Op::Clear(a.0, a.1), Op::Clear(c.0, c.1), Op::Reopen, Op::Append(p1(2))]);
                 if !quick {
                     out.push(vec![Op::BatchN(n), Op::Clear(a.0, a.1), Op::Reopen, Op::Clear(c.0, c.1), Op::Reopen]);
